@@ -56,47 +56,53 @@ def _analyses():
 
     vjp_axis = lambda c, w: a7_axis.hazards(c, w, modes=("vjp",))
     jvp_axis = lambda c, w: a7_axis.hazards(c, w, modes=("jvp",))
+    vjp_reduce = lambda c, w: a3_reduce.reductions(c, w, modes=("vjp",))
+    jvp_reduce = lambda c, w: a3_reduce.reductions(c, w, modes=("jvp",))
+    vjp_none = lambda c, w: a7_axis.none_axis(c, w, modes=("vjp",))
+    jvp_none = lambda c, w: a7_axis.none_axis(c, w, modes=("jvp",))
     vjp_alias = lambda c, w: a5_factor.alias_agree(c, w, modes=("vjp",))
     jvp_alias = lambda c, w: a5_factor.alias_agree(c, w, modes=("jvp",))
     vjp_drop = lambda c, w: a2.dropped_options(c, w, modes=("vjp",))
     jvp_drop = lambda c, w: a2.dropped_options(c, w, modes=("jvp",))
+    vjp_ignored = lambda c, w: a2.ignored_options(c, w, modes=("vjp",))
+    jvp_ignored = lambda c, w: a2.ignored_options(c, w, modes=("jvp",))
     vjp_order = lambda c, w: a7_order.layout_options(c, w, modes=("vjp",))
     jvp_order = lambda c, w: a7_order.layout_options(c, w, modes=("jvp",))
     thread = lambda c, w: kt.global_effects(c, w, thread=True)
     return {
         "C01": (
-            [a3.vjp, a3.helpers, a3.einsum_sublist_target, a3_reduce.reductions, km.squeeze_axes, a16_perm.permutations_rule, a16_perm.norm_rolls, a17_labels.contraction_adjoints, vjp_axis, vjp_order, a2.catchall, a2.forwarded_defaults, vjp_drop, a2.variadic, a2.argnums_rules, a2.positional_selection, a1.arity, ka.option_domains, a5_factor.agree, vjp_alias, a5_linear.closures_linear, ka.arraybox_table, kc.inplace_sites],
+            [a3.vjp, a3.helpers, a3.einsum_sublist_target, vjp_reduce, km.squeeze_axes, a16_perm.permutations_rule, a16_perm.norm_rolls, a17_labels.contraction_adjoints, vjp_axis, vjp_none, vjp_order, a2.catchall, a2.forwarded_defaults, vjp_drop, vjp_ignored, a2.variadic, a2.argnums_rules, a2.positional_selection, a1.arity, ka.option_domains, a5_factor.agree, vjp_alias, a5_linear.closures_linear, ka.arraybox_table, kc.inplace_sites],
             "Reverse-mode exactness is numerical; decided here are the configuration-dependent plumbing clauses every exact rule needs: "
-            "broadcast discipline of VJPs (A3.vjp), negative-axis hazards (A7), layout-relative `order` values never forwarded to the cotangent (A7.order), keyword/positional binding behind catch-alls (A2.catchall), equal names and defaults where (*args, **kwargs) are forwarded to another NumPy function (A2.fwd), no option handed on incompletely (A2.drop), "
+            "broadcast discipline of VJPs (A3.vjp), negative-axis hazards (A7), axis=None of the flattening functions never replaced by an explicit axis (A7.none), layout-relative `order` values never forwarded to the cotangent (A7.order), keyword/positional binding behind catch-alls (A2.catchall), equal names and defaults where (*args, **kwargs) are forwarded to another NumPy function (A2.fwd), no option handed on incompletely (A2.drop) or accepted and never read (A2.ignored), "
             "variadic offsets (A2.variadic), whole-argnums rules map element-wise (A2.argnums), slots of variadic primitives addressed by position, never by operand identity (A2.position), arity (A1.arity), closed option domains (A6.enum), VJP/JVP factor agreement of elementwise rules (A5), equal rules for two names of one NumPy function (A5.alias), linearity of every rule closure in its cotangent (A5.lin: a VJP is a linear map; helper primitives it calls must be known to be linear in that operand) "
             "and the operator/method call forms (A14); no rule writes in place to its cotangent, its arguments or the answer (A9.inplace: every other rule that reads the same array would see the changed values). Each is a necessary condition: breaking one makes some call configuration silently wrong.",
         ),
         "C02": (
-            [a1.lin, a3.jvp, a3.helpers, a3_reduce.reductions, a16_perm.norm_rolls, ka.sibling_guards, jvp_axis, jvp_order, a2.catchall, a2.forwarded_defaults, jvp_drop, a2.positional_selection, a1.arity, kc.zero_paths, a5_factor.agree, jvp_alias, a5_linear.closures_linear, kc.inplace_sites],
+            [a1.lin, a3.jvp, a3.helpers, jvp_reduce, a16_perm.norm_rolls, ka.sibling_guards, jvp_axis, jvp_none, jvp_order, a2.catchall, a2.forwarded_defaults, jvp_drop, jvp_ignored, a2.positional_selection, a1.arity, kc.zero_paths, a5_factor.agree, jvp_alias, a5_linear.closures_linear, kc.inplace_sites],
             "Forward-mode: 'same'/def_linear only on linear (function, argument) pairs (A1.lin: exactly when the primitive applied to the tangent IS the JVP), "
-            "output-shaped tangents of broadcasting JVPs (A3.jvp), guard agreement with the VJP twin (A6.sibling), axis hazards (A7), layout-relative `order` values (A7.order) and binding (A2; slots of variadic primitives addressed by position, A2.position) of JVP makers, "
+            "output-shaped tangents of broadcasting JVPs (A3.jvp), guard agreement with the VJP twin (A6.sibling), axis hazards (A7, A7.none), layout-relative `order` values (A7.order) and binding (A2; slots of variadic primitives addressed by position, A2.position) of JVP makers, "
             "(value, tangent) order and zero tangents of the right space (A13.zero/A2.tuple), VJP/JVP factor agreement of elementwise rules (A5), equal rules for two names of one NumPy function (A5.alias), linearity of every rule in its tangent (A5.lin); no JVP rule writes in place to the tangent, the arguments or the answer it is given (A9.inplace: the tangent stored on the parent node is read again by every later consumer).",
         ),
         "C03": (
-            [kc.backward_pass, km.toposort, kc.dispatch, kt.wrapper, kc.raise_discipline, ka.arraybox_table, kc.ownership, km.container_vspaces, kc.inplace_sites],
+            [kc.backward_pass, km.toposort, kc.dispatch, kt.wrapper, kc.raise_discipline, ka.arraybox_table, kc.ownership, km.container_vspaces, kc.inplace_sites, a2.argnums_rules],
             "Chain rule over arbitrary graphs: path property of one backward_pass iteration (node.vjp exactly once, one add_outgrads per parent edge keyed by that parent, "
-            "accumulating into the current entry), the accumulation itself (add_outgrads ownership typestate A9.proto; container spaces delegate _add/_mut_add to the same-named child operation and keep the result, A14.vspace), alignment of parents/argnums/rules in the wrapper and in all dispatch branches (A13.align), node constructor slots (A2.slot); a cotangent fans out to several rules unchanged because no rule writes to borrowed memory (A9.inplace).",
+            "accumulating into the current entry), the accumulation itself (add_outgrads ownership typestate A9.proto; container spaces delegate _add/_mut_add to the same-named child operation and keep the result, A14.vspace), alignment of parents/argnums/rules in the wrapper and in all dispatch branches (A13.align), node constructor slots (A2.slot), whole-argnums rules pair each (co)tangent with its own argnum when constants are mixed in between traced arguments (A2.argnums); a cotangent fans out to several rules unchanged because no rule writes to borrowed memory (A9.inplace).",
         ),
         "C04": (
-            [a5_factor.agree, a5_linear.closures_linear, a1.lin, a3.vjp, a3.jvp, a17_labels.contraction_adjoints, a2.dropped_options, a2.forwarded_defaults],
+            [a5_factor.agree, a5_linear.closures_linear, a1.lin, a3.vjp, a3.jvp, a17_labels.contraction_adjoints, a2.dropped_options, a2.forwarded_defaults, a5_factor.mask_agree],
             "Adjointness: equal normal forms of the VJP and JVP factors of every elementwise primitive with both rules (a diagonal operator is self-adjoint, so equality of the "
-            "factors IS adjointness for all inputs); linearity in g of every rule closure (two-point domain over linear_in facts); 'same' entries only on linear pairs; both rules of a primitive hand its options on to NumPy completely and to functions with the same defaults (A2.drop, A2.fwd: a rule that silently runs with another option value than its twin is not its adjoint).",
+            "factors IS adjointness for all inputs); linearity in g of every rule closure (two-point domain over linear_in facts); 'same' entries only on linear pairs; the two rules of an argument select on the primal values with the same predicates on the same operands (A5.mask); both rules of a primitive hand its options on to NumPy completely and to functions with the same defaults (A2.drop, A2.fwd: a rule that silently runs with another option value than its twin is not its adjoint).",
         ),
         "C05": (
-            [a3.vjp, a3.helpers, a3.einsum_sublist_target, a3_reduce.reductions, km.squeeze_axes, a4.match, kc.zero_paths, a1.types, a2.layout, a4_dtype.dtype_comparisons, a4_dtype.cotangent_template, vjp_axis],
+            [a3.vjp, a3.helpers, a3.einsum_sublist_target, vjp_reduce, km.squeeze_axes, a4.match, kc.zero_paths, a1.types, a2.layout, a4_dtype.dtype_comparisons, a4_dtype.cotangent_template, vjp_axis],
             "A gradient lives in its argument's space: shape support under broadcasting (A3.vjp), no axis arithmetic that changes meaning for a negative axis (A7: such a slip cuts the cotangent along the wrong axis), real/complex kind for every kind assignment of the arguments (A4.match, exhaustive 2^n), "
             "kind decisions never made by dtype == <Python scalar type> (A4.dtypecmp), the shape/dtype template of a rebuilt cotangent taken from the differentiated argument (A4.template), zeros of the argument's / output's space on independent paths (A13.zero), one Box and one VSpace per differentiable type (A1.types), container layout (A2.layout).",
         ),
         "C06": (
-            [kt.trace_fn, kt.wrapper, kt.notrace_wrapper, kt.find_top, kt.new_trace, km.wrap_namespace, ka.arraybox_table, a1.methods, ka.operators, ka.wrapper_signatures, km.axis_normalisation_consistency, kc.inplace_sites],
+            [kt.trace_fn, kt.wrapper, kt.notrace_wrapper, kt.find_top, kt.new_trace, km.wrap_namespace, ka.arraybox_table, a1.methods, ka.operators, ka.wrapper_signatures, ka.option_packs, km.axis_normalisation_consistency, kc.inplace_sites],
             "Value transparency: trace() returns the unboxed value; the wrapper calls the raw function unchanged on plain inputs and unboxes exactly one level; ArrayBox's "
             "operator/method/property table follows the Python data model (A14); operators return primal/aux untouched (A15); re-implemented wrappers keep NumPy's optional "
-            "parameter names, positions and defaults (A6.wrapsig); no in-place write to a parameter (A9.inplace).",
+            "parameter names, positions and defaults (A6.wrapsig) and apply a forwarded option pack exactly once, never per nested element (A6.optpack); no in-place write to a parameter (A9.inplace).",
         ),
         "C07": (
             [a8_taint.traceable, a1.helpers, kc.closure_reuse, a5_factor.agree, a5_linear.closures_linear, kt.trace_fn, kt.wrapper, kt.notrace_wrapper, kt.find_top, kt.new_trace],
@@ -104,9 +110,9 @@ def _analyses():
             "has its own VJP and VSpace arithmetic has both rules (A1.helpers), backward closures are re-usable (A10), no rule selects on the raw value of its (co)tangent unless the shortcut is disabled for traced (co)tangents (A5.lin/A5.cut).",
         ),
         "C08": (
-            [kt.trace_fn, kt.wrapper, kt.find_top, kt.new_trace, ka.operators, km.products],
+            [kt.trace_fn, kt.wrapper, kt.find_top, kt.new_trace, ka.operators, km.products, kc.node_slots],
             "No perturbation confusion: the three mechanisms of tracer.py on all paths - inner traces get strictly larger ids (A12.bal), only top-trace boxes are unboxed and the "
-            "list resets on strictly greater / appends on equal (A12.top), dependence by id equality, re-entry of the wrapper for lower levels, answer boxed with the arguments' trace (A13.unbox).",
+            "list resets on strictly greater / appends on equal (A12.top), dependence by id equality, re-entry of the wrapper for lower levels, answer boxed with the arguments' trace (A13.unbox); the node constructors hand the answer and the arguments to the rule exactly as the wrapper passed them - still boxed for every enclosing trace (A2.slot: a rule evaluated on unboxed values detaches the inner derivative from all outer levels).",
         ),
         "C09": (
             [a4.vspace, a4.match, a4.match_jvp, a4.modulus, a5_factor.agree, ka.operators, a4_dtype.dtype_comparisons, a4_parity.conj_parity],
@@ -134,13 +140,13 @@ def _analyses():
             "compares type and structure fields, ComplexArrayVSpace overrides (A4.vspace), purity and mut_add(None, x) freshness (A9.pure).",
         ),
         "C14": (
-            [kc.zero_paths, kc.closure_reuse, a1.nograd, a1.sym, a1.none_rules, a1.methods, ka.arraybox_table, kt.wrapper, kt.notrace_wrapper, kt.trace_fn, a3.vjp_locally_constant, kc.programmatic_registrations],
+            [kc.zero_paths, kc.closure_reuse, a1.nograd, a1.sym, a1.none_rules, a1.methods, ka.arraybox_table, kt.wrapper, kt.notrace_wrapper, kt.trace_fn, a3.vjp_locally_constant, kc.programmatic_registrations, a7_axis.zero_shapes],
             "Exact zeros: independent outputs give zeros of the right space and never None (A13.zero); everything declared non-differentiable is locally constant (A1.nograd/none/methods, "
-            "facts about NumPy) for both node types (A1.sym); comparisons map to untraced functions, __bool__/shape/len read the raw value (A14); the notrace branch returns plain values; a written-out rule for a locally constant argument has that argument's shape support (A3.vjp).",
+            "facts about NumPy) for both node types (A1.sym); comparisons map to untraced functions, __bool__/shape/len read the raw value (A14); the notrace branch returns plain values; a written-out rule for a locally constant argument has that argument's shape support (A3.vjp); a zero that a rule builds itself does not get its shape from axis arithmetic that changes meaning for a negative axis (A7.zero).",
         ),
         "C15": (
-            [kc.raise_discipline, ka.guard_dominance, ka.option_domains, ka.sibling_guards, ka.raw_calls_in_wrappers, ka.arraybox_table, ka.operators, a1.nograd, a1.none_rules, _namespace_classes, km.wrap_namespace, km.guard_functions, a16_perm.norm_support, a16_perm.permutations_rule],
-            "Loud failure: handlers on the rule-lookup/boxing path end in raise and lookups index (A6.raise), guards cannot be bypassed (A6.dom), closed option domains covered (A6.enum), unsupported (rank, axis, ord) configurations of linalg.norm rejected on the whole finite domain (A6.support), every axis configuration of the axis-permuting primitives and of diagonal either returns the argument's layout or raises (A16, exhaustive over ranks 1..4), "
+            [kc.raise_discipline, ka.guard_dominance, ka.option_domains, ka.sibling_guards, ka.raw_calls_in_wrappers, ka.arraybox_table, ka.operators, a1.nograd, a1.none_rules, _namespace_classes, km.wrap_namespace, km.guard_functions, a16_perm.norm_support, a16_perm.permutations_rule, a2.ignored_options],
+            "Loud failure: handlers on the rule-lookup/boxing path end in raise and lookups index (A6.raise), guards cannot be bypassed (A6.dom), closed option domains covered (A6.enum), no rule accepts an option of its primitive by name (or in **kwargs) and then never reads it (A2.ignored: an unsupported option has to be rejected, not swallowed), unsupported (rank, axis, ord) configurations of linalg.norm rejected on the whole finite domain (A6.support), every axis configuration of the axis-permuting primitives and of diagonal either returns the argument's layout or raises (A16, exhaustive over ranks 1..4), "
             "guard agreement VJP<->JVP (A6.sibling), raw results re-traced (A6.rawcall), no __setitem__/in-place dunders and output checks of grad/value_and_grad/elementwise_grad (A6.ops), "
             "the only declarative ways to drop dependence are locally constant (A1.nograd/none), namespace classification of every exported callable.",
         ),
